@@ -107,6 +107,7 @@ LY_ERR
 lyd_dup_inst_next(struct lyd_node **inst, const struct lyd_node *siblings, struct ly_ht **dup_inst_ht)
 {
     struct lyd_dup_inst *dup_inst;
+    LY_ERR r;
 
     if (!*inst) {
         /* no match, inst is unchanged */
@@ -120,8 +121,13 @@ lyd_dup_inst_next(struct lyd_node **inst, const struct lyd_node *siblings, struc
 
     if (!dup_inst->used) {
         /* we did not cache these instances yet, do so */
-        lyd_find_sibling_dup_inst_set(siblings, *inst, &dup_inst->set);
-        assert(dup_inst->set->count && (dup_inst->set->dnodes[0] == *inst));
+        r = lyd_find_sibling_dup_inst_set(siblings, *inst, &dup_inst->set);
+        if (r == LY_ENOTFOUND) {
+            /* at least the instance itself must have been found, an empty set must not be cached */
+            LOGINT_RET(LYD_CTX(siblings));
+        }
+        LY_CHECK_RET(r);
+        assert(dup_inst->set->dnodes[0] == *inst);
     }
 
     if (dup_inst->used == dup_inst->set->count) {
